@@ -121,6 +121,17 @@ Definition subst_all (f : nat -> N -> N -> bool) (s : str) (chars : list N) : bo
                     forallb (fun c => if c =? old then true else f i c old) chars)
           (seq 0 (length s)).
 
+(* model result of one substitution WITHOUT re-running the decoder where theorem from_text_single_subst
+   (C15_single_subst_address) already determines it: base accepted, position after the separator, c <> "1",
+   not a case-only change  ==>  Err EType.  Everything else is evaluated.  Proved equal to the plain
+   evaluation below (from_text_subst_fast_ok), so using it in the correspondence run loses nothing. *)
+Definition from_text_subst_fast (s : str) (base : res address) (sep : option nat) (i : nat) (c old : N) : res address :=
+  match base, sep with
+  | Ok _, Some p =>
+    if Nat.ltb p i && negb (c =? 49) && negb (lowerc c =? lowerc old) then Err EType else from_text (subst i c s)
+  | _, _ => from_text (subst i c s)
+  end.
+
 Definition corr_with (same : res address -> ires -> bool) (k : case) : bool :=
   match k with
   | KAddr p s n ib it ifb ift =>
@@ -141,9 +152,11 @@ Definition corr_with (same : res address -> ires -> bool) (k : case) : bool :=
   | KAddrBad p s n => match construct p s n with Err _ => true | Ok _ => false end
   | KSubst s chars ibase acc =>
     let s := codes s in
-    same (from_text s) ibase &&
-    subst_all (fun i c _ => same (from_text (subst i c s))
-                                 (match lookup i c acc with Some r => r | None => IErr EType end)) s chars
+    let base := from_text s in
+    let sep := rfind 49 s in
+    same base ibase &&
+    subst_all (fun i c old => same (from_text_subst_fast s base sep i c old)
+                                   (match lookup i c acc with Some r => r | None => IErr EType end)) s chars
   | KText s _ i => same (from_text s) i
   | KBytes b i => same (from_bytes b) i
   end.
@@ -151,6 +164,17 @@ Definition c15_corr := corr_with same_coarse.
 (* informational (exception kinds compared exactly); the substitution sweep is not repeated for it *)
 Definition c15_corr_exact (k : case) : bool :=
   match k with KSubst s _ ibase _ => same_exact (from_text (codes s)) ibase | _ => corr_with same_exact k end.
+
+(* reference semantics of the comparison (every substituted string decoded by the model) ... *)
+Definition corr_plain (same : res address -> ires -> bool) (k : case) : bool :=
+  match k with
+  | KSubst s chars ibase acc =>
+    let s := codes s in
+    same (from_text s) ibase &&
+    subst_all (fun i c _ => same (from_text (subst i c s))
+                                 (match lookup i c acc with Some r => r | None => IErr EType end)) s chars
+  | _ => corr_with same k
+  end.
 
 (* the property, decided on the implementation's outputs *)
 Definition c15_oracle (k : case) : bool :=
@@ -220,3 +244,31 @@ Definition expected_literals : list (string * list N * list string) := [
   ("ConstrainedBytes.__eq__", [], []);
   ("VerificationKeyHash", [], []);
   ("ScriptHash", [], [])].
+
+(* ---------- ... and the accelerated comparison is the same function ---------- *)
+From Coq Require Import Lia.
+Lemma from_text_subst_fast_ok s i c : (i < length s)%nat -> c <> nth i s 0 ->
+  from_text_subst_fast s (from_text s) (rfind 49 s) i c (nth i s 0) = from_text (subst i c s).
+Proof.
+  intros Hi Hne. unfold from_text_subst_fast.
+  destruct (from_text s) as [a|e] eqn:B; [|reflexivity].
+  destruct (rfind 49 s) as [p|] eqn:P; [|reflexivity].
+  destruct (Nat.ltb p i) eqn:L; [|reflexivity]. apply Nat.ltb_lt in L.
+  destruct (N.eqb_spec c 49) as [|Hc]; [reflexivity|].
+  destruct (N.eqb_spec (lowerc c) (lowerc (nth i s 0))) as [|Hl]; [reflexivity|]. cbn [negb andb].
+  destruct (from_text_single_subst s a p i c B P ltac:(lia) Hc Hne) as [E|[E _]]; [now rewrite E | contradiction].
+Qed.
+
+Lemma forallb_ext_in {A} (f g : A -> bool) l : (forall x, In x l -> f x = g x) -> forallb f l = forallb g l.
+Proof.
+  induction l as [|x l IH]; intros H; cbn; [reflexivity|].
+  rewrite (H x (or_introl eq_refl)), IH; [reflexivity|]. intros y Hy. apply H. now right.
+Qed.
+
+Theorem corr_with_plain same k : corr_with same k = corr_plain same k.
+Proof.
+  destruct k as [| |s chars ibase acc| |]; try reflexivity. cbn [corr_with corr_plain]. cbv zeta.
+  f_equal. unfold subst_all. apply forallb_ext_in. intros i Hi. apply in_seq in Hi.
+  apply forallb_ext_in. intros c _. destruct (N.eqb_spec c (nth i (codes s) 0)) as [|Hne]; [reflexivity|].
+  rewrite from_text_subst_fast_ok by (assumption || lia). reflexivity.
+Qed.
